@@ -13,6 +13,8 @@ BUILTINS = {"len", "range", "list", "tuple", "max", "min", "abs", "sum", "int", 
 MODULES = {"np": "np", "numpy": "np", "math": "math", "itertools": "itertools", "time": "time", "sys": "sys", "logging": "logging"}
 
 POW2 = z3.Function("pow2", z3.IntSort(), z3.IntSort())
+SUMR = z3.Function("SumR", z3.ArraySort(z3.IntSort(), z3.RealSort()), z3.IntSort(), z3.IntSort(), z3.RealSort())
+SUMI = z3.Function("SumI", z3.ArraySort(z3.IntSort(), z3.IntSort()), z3.IntSort(), z3.IntSort(), z3.IntSort())
 
 
 def global_name(name, ex):
@@ -150,6 +152,12 @@ def call_builtin(ex, name, args, kwargs, node):
             for it in x.items:
                 r = ex.binop(ast.Add(), r, it, node)
             return r
+        if isinstance(x, Seq) and len(args) == 1:
+            # ghost Sum: an uninterpreted function of (array, lo, hi); unfolding axioms are supplied by sidecar lemmas where needed
+            rs = x.arr.sort().range()
+            f = SUMR if rs == z3.RealSort() else SUMI
+            ex.assumed.append("sum() over a symbolic sequence is the ghost function Sum(arr,0,len) (no unfolding unless the sidecar adds it)")
+            return f(x.arr, z3.IntVal(0), V.to_z3(x.len()))
         raise OutOfSubset("sum over symbolic sequence", node)
     if name in ("int",):
         (x,) = args
@@ -230,9 +238,9 @@ def call_builtin(ex, name, args, kwargs, node):
         else:
             c = 0 if name == "np.zeros" else 1
             arr = z3.K(z3.IntSort(), z3.IntVal(c) if intd else z3.RealVal(c))
-        if isinstance(n, int) and n <= 8:
-            a = Seq("array", None, n, arr)
-            return a
+        if isinstance(n, int) and n <= 32 and name != "np.empty":
+            c = 0 if name == "np.zeros" else 1
+            return Seq("array", [c if intd else Fraction(c) for _ in range(n)])
         return Seq("array", None, n, arr)
     if name == "np.linspace":
         a, b, n = args[0], args[1], args[2]
